@@ -12,11 +12,14 @@ func init() {
 }
 
 var c17Rows = []drvRow{{"a": "x", "b": "p"}, {"a": "y"}, {"a": "x"}}
+var c17RowsB = []drvRow{{"a": "x", "b": "q"}, {"a": "y"}, {"a": "y"}, {"a": "x"}, {"a": "x"}}
 
-func c17Query(tag string, c *fileConn) { c17QueryN(tag, c, 0) }
+func c17Query(tag string, c *fileConn) { c17QueryRows(tag, c, 0, c17Rows) }
 
-// c17QueryN: different goroutines send different query texts
-func c17QueryN(tag string, c *fileConn, which int) {
+func c17QueryN(tag string, c *fileConn, which int) { c17QueryRows(tag, c, which, c17Rows) }
+
+// c17QueryRows: different goroutines send different query texts; rows = the file's data
+func c17QueryRows(tag string, c *fileConn, which int, rows []drvRow) {
 	q := drvQuery{text: `a = "x"`, match: isA("x")}
 	if which%2 == 1 {
 		q = drvQuery{text: `a = "y" ; a`, match: isA("y"), groupBy: []string{"a"}}
@@ -27,7 +30,7 @@ func c17QueryN(tag string, c *fileConn, which int) {
 	}
 	verifAssert(err == nil, tag+": a query on an open handle failed")
 	if err == nil {
-		drvCheckRows(tag, q, c17Rows, r)
+		drvCheckRows(tag, q, rows, r)
 	}
 }
 
@@ -37,8 +40,8 @@ func HarnessC17Seq() {
 	p1 := verifTempPath("c17a.updog")
 	p2 := verifTempPath("c17b.updog")
 	drvBuild(p1, c17Rows)
-	drvBuild(p2, c17Rows)
-	dsns := []string{"file:" + p1, "file:" + p2, "file:" + p1 + "?preload=true"}
+	drvBuild(p2, c17RowsB) // different data: an answer taken from the other file is visible
+	dsns := []string{"file:" + p1 + "?lrucache=true&lrucachesize=100000", "file:" + p2 + "?lrucache=true&lrucachesize=100000", "file:" + p1 + "?preload=true"}
 	d := newUpdogDriver()
 	var open []*fileConn
 	var openDSN []int
@@ -72,7 +75,11 @@ func HarnessC17Seq() {
 			openDSN = append(openDSN, which)
 		case 1:
 			h := verifChoice("handle", len(open))
-			c17Query("C17", open[h])
+			if openDSN[h] == 1 {
+				c17QueryRows("C17", open[h], 0, c17RowsB)
+			} else {
+				c17Query("C17", open[h])
+			}
 		case 2:
 			h := verifChoice("handle", len(open))
 			verifAssert(open[h].Close() == nil, "C17: Close failed")
